@@ -119,6 +119,10 @@ def binding_cases(run, models, n):
                 kw[nm] = argvars[nm] if not covered else B.argument(B.Tensor(F32, (2,)))
         if rng.random() < 0.12:
             kw["no_such_input"] = B.argument(B.Tensor(F32, (2,)))
+        inner_only = [d for d in defaults if d not in in_names]
+        if inner_only and rng.random() < 0.3:
+            # a keyword named like an initializer that is NOT an input of the model: still an unknown argument
+            kw[rng.choice(inner_only)] = B.argument(B.Tensor(F32, (2,)))
         before = m.SerializeToString(deterministic=True)
         try:
             res = B.inline(m)(*pos, **kw)
